@@ -26,3 +26,5 @@ THEOREMS["C06"] += ["Backend.C06_nothing_older_arrives", "Backend.C06_flush_log_
 THEOREMS["C09"] += ["Backend.C09_retry_granted_once_queue_read", "Backend.C09_pass_reads_every_ripe_queue"]
 MODULES["C09"] += ["QuillModel.Props.C09Progress"]
 THEOREMS["C09"] += ["Backend.C09_blocked_queue_drains", "Backend.C09_blocked_call_resumes_concurrent"]
+THEOREMS["C06"] += ["Backend.C06_flush_log_returns_concurrent_retry"]
+MODULES["C06"] += ["QuillModel.Props.C09Progress"]
